@@ -19,6 +19,7 @@ def rule_writer(ctx):
     ctx.res.minimum("O14.1", 2)
     protocol.writer_table(ctx, "O14.1", {"reset", "delimiter"}, "delimited")
     protocol.writer_table(ctx, "O14.1", {"reset", "delimiter"}, "fixed")
+    protocol.fixed_writer_padding_table(ctx, "O14.5")
 
 
 def rule_validation_is_the_readers(ctx):
@@ -51,4 +52,35 @@ def rule_fixed_files_keep_their_line_ends(ctx):
     rule_newline(ctx, "O14.4", (("cutplace.rowio.fixed_rows", "r"), ("cutplace.rowio.AbstractRowWriter.__init__", "w")))
 
 
-RULES = [rule_writer, rule_validation_is_the_readers, rule_write_rows_agrees_with_write_row, rule_fixed_files_keep_their_line_ends, rule_module_state]
+def rule_leading_blanks_survive(ctx):
+    """O14.6: with "skip initial space" the reader drops blanks after an item delimiter unless the cell is quoted; minimal
+    quoting does not quote a cell for its leading blank (frozen csv fact), so a written cell ' x' reads back as 'x' unless
+    the writer quotes everything in that configuration."""
+    import csv
+
+    from ..absint import AbsRaise, exc_name
+    from ..tablekit import decide_kinds
+    from .c12 import _run_reader_writer
+
+    ctx.res.minimum("O14.6", 1)
+
+    def cell(ch):
+        attributes = {"_item_delimiter": ",", "_quote_character": '"', "_escape_character": '"', "_line_delimiter": "any",
+                      "_quoting": ch.choose("quoting", [csv.QUOTE_MINIMAL, csv.QUOTE_ALL]),
+                      "_skip_initial_space": ch.choose("skip initial space", [False, True])}
+        key = "quoting=%s skip initial space=%s" % ("all" if attributes["_quoting"] == csv.QUOTE_ALL else "minimal", attributes["_skip_initial_space"])
+        try:
+            seen, _ = _run_reader_writer(ctx.model, ch, attributes)
+        except AbsRaise as raised:
+            return (key, "writer set-up raises " + exc_name(raised.value), "")
+        reader_keywords = dict(seen["reader"][1]) if "reader" in seen else {}
+        writer_keywords = dict(seen["writer"][1]) if "writer" in seen else {}
+        if reader_keywords.get("skipinitialspace") and writer_keywords.get("quoting") != csv.QUOTE_ALL:
+            return (key, "cells with leading blanks are written unquoted although the reader skips initial space",
+                    "writer quoting=%r" % (writer_keywords.get("quoting"),))
+        return (key, None, None)
+
+    decide_kinds(ctx, "O14.6", "leading blanks survive skip initial space", "cutplace.rowio.DelimitedRowWriter.__init__", cell, min_cells=4)
+
+
+RULES = [rule_writer, rule_validation_is_the_readers, rule_write_rows_agrees_with_write_row, rule_fixed_files_keep_their_line_ends, rule_leading_blanks_survive, rule_module_state]
